@@ -113,6 +113,26 @@ ViolatedMain(t, c, i) ==
 \* the same rule for a cell of a running-sum/product column; every cell of the Lagrange kernel column is determined
 ViolatedAux(t, j, i) == IF t.lag = 1 /\ j = AuxW(t) - 1 THEN TRUE ELSE <<j, i>> \in AuxAssertedCells(t) \/ i <= N(t) - t.k
 
+\* ---- the seed of the public coin: the proof context as field elements (documented layout of Context::to_elements), each
+\* element written as ElemBytes little-endian bytes; the public inputs follow (their encoding is the computation's own) ------
+ModulusBytes(bits) == CASE bits = 62  -> <<1, 0, 0, 0, 128, 200, 255, 63>>                     \* 2^62 - 111 * 2^39 + 1
+                        [] bits = 64  -> <<1, 0, 0, 0, 255, 255, 255, 255>>                    \* 2^64 - 2^32 + 1
+                        [] bits = 128 -> <<1, 0, 0, 0, 0, 211>> \o [i \in 1..10 |-> 255]      \* 2^128 - 45 * 2^40 + 1
+ElemBytesOf(bits) == IF bits = 128 THEN 16 ELSE 8
+Pow2Bytes(e) == [i \in 1..4 |-> IF i - 1 = e \div 8 THEN 2 ^ (e % 8) ELSE 0]
+ChunksOf(bs, k) == [j \in 1..CeilDiv(Len(bs), k) |-> SubSeq(bs, (j - 1) * k + 1, Min2(j * k, Len(bs)))]
+SeedCtx(t, meta) ==
+    LET eb    == ElemBytesOf(t.bits)
+        md    == ModulusBytes(t.bits)
+        half  == Len(md) \div 2
+        \* main width, number of auxiliary segments [, auxiliary width, auxiliary random elements] packed into one element
+        first == IF AuxW(t) > 0 THEN <<t.auxr, AuxW(t), 1, t.width>> ELSE <<0, t.width>>
+        elems == << first, Pow2Bytes(t.ln) >>                                        \* trace length
+                 \o (IF meta = <<>> THEN << >> ELSE ChunksOf(meta, eb - 1))           \* metadata in chunks of eb - 1 bytes
+                 \o << SubSeq(md, 1, half), SubSeq(md, half + 1, 2 * half) >>         \* field modulus in two halves
+                 \o << <<t.rem, t.fold, t.ext>>, <<t.grind>>, <<2 ^ t.lb>>, <<t.q>> >> \* extension | folding | remainder; grinding; blowup; queries
+    IN  FlattenSeq([i \in DOMAIN elems |-> PadTo(elems[i], eb)])
+
 \* ---- layout of the serialized proof: number of field elements / digests of each component (Wire.tla names) ------------
 \* u = number of unique query positions
 Layout(t, u) == [ood_trace_elems  |-> 2 * (t.width + NAux(t)),               \* current and next row; the Lagrange column has its own frame
